@@ -17,7 +17,7 @@ import (
 
 type Agg struct {
 	Fn    string  `json:"fn"`
-	Arg   string  `json:"arg"` // "v", "d.v", "v + w", "v * 2", "v - 1", "v * 0.5", "v * 1.5", "d.v * 2", "*"
+	Arg   string  `json:"arg"` // "v", "d.v", "v + w", "v * 2", "v - 1", "v * 0.5", "v * 1.5", "d.v * 2", "1" (numeric literal), "*"
 	P     float64 `json:"p,omitempty"`
 	Nth   int     `json:"nth,omitempty"`
 	Spell int     `json:"spell,omitempty"` // how the function name is written: 0 lower case, 1 UPPER CASE, 2 Initial capital
@@ -42,7 +42,7 @@ type Case struct {
 }
 
 var fns = []string{"count", "sum", "avg", "min", "max", "stddev", "stddevs", "var", "vars", "median", "percentile", "first_value", "last_value", "nth_value", "collect", "deduplicate", "merge_agg"}
-var args = []string{"v", "v", "v", "d.v", "v + w", "v * 2", "v - 1", "v * 0.5", "v * 1.5", "d.v * 2"}
+var args = []string{"v", "v", "v", "d.v", "v + w", "v * 2", "v - 1", "v * 0.5", "v * 1.5", "d.v * 2", "1"}
 var ps = []float64{0, 0.25, 0.5, 0.9, 0.95, 1}
 
 func isArith(arg string) bool {
@@ -209,6 +209,8 @@ func argCell(r gen.Row, arg string) cell {
 		return cell{f: f, isInt: v.K == "int"}
 	}
 	switch arg {
+	case "1": // a numeric literal: that constant for every row (count(1) counts rows)
+		return cell{f: 1, isInt: true}
 	case "v":
 		return num(r["v"])
 	case "d.v":
@@ -695,7 +697,7 @@ func features(c Case) []string {
 
 var spec = pbt.Spec[Case]{
 	ID:          "C03",
-	Rule:        "generated: CountingWindow(N), N 1..8, optional group column, 1-4 consecutive batches per key through one instance; values int/float64 (negative, zero, repeats, large), NULL, missing; argument shapes v, d.v, v + w, v * 2, v - 1, v * 0.5, v * 1.5, d.v * 2 (drawn per aggregate, so one query mixes them); function names in lower, upper or initial-capital spelling; SELECT list = random subset of count(*), count, sum, avg, min, max, stddev, stddevs, var, vars, median, percentile(p), first_value, last_value, nth_value, collect, deduplicate, merge_agg. oracle: reference definitions on exactly the batch's rows (NULL/missing skipped, empty input -> NULL for sum/avg/min/max, population vs sample formulas, percentile accepted between the neighbouring order statistics), plus a twin instance fed each batch permuted (order-insensitive aggregates must agree). non-trivial = a batch with a NULL/missing value and >= 2 distinct numbers, or >= 2 batches; distinct by case hash",
+	Rule:        "generated: CountingWindow(N), N 1..8, optional group column, 1-4 consecutive batches per key through one instance; values int/float64 (negative, zero, repeats, large), NULL, missing; argument shapes v, d.v, v + w, v * 2, v - 1, v * 0.5, v * 1.5, d.v * 2 and the literal 1 (drawn per aggregate, so one query mixes them); function names in lower, upper or initial-capital spelling; SELECT list = random subset of count(*), count, sum, avg, min, max, stddev, stddevs, var, vars, median, percentile(p), first_value, last_value, nth_value, collect, deduplicate, merge_agg. oracle: reference definitions on exactly the batch's rows (NULL/missing skipped, empty input -> NULL for sum/avg/min/max, population vs sample formulas, percentile accepted between the neighbouring order statistics), plus a twin instance fed each batch permuted (order-insensitive aggregates must agree). non-trivial = a batch with a NULL/missing value and >= 2 distinct numbers, or >= 2 batches; distinct by case hash",
 	Assumptions: []string{"stddev/var/median/percentile over no usable input: NULL, 0 or NaN accepted (not fixed by the guide)", "first_value/last_value: a missing field may be reported as NULL or skipped; an explicit NULL is reported", "nth_value: n-th row or n-th usable value accepted"},
 	Gen:         genCase,
 	Run:         runCase,
